@@ -9,7 +9,7 @@ expect[C09-4]=2; expect[C17-3]=2; expect[C17-7]=2; expect[C04-1]=2     # restruc
 expect[C05-6]=2; expect[C17-6]=0
 # round 4
 expect[C06-7]=2; expect[C11-7]=2; expect[C20-5]=2      # restructured / unknown callee: undecided
-expect[C07-7]=0; expect[C12-3]=0; expect[C19-6]=0; expect[C19-7]=0   # rejected by ANOTHER property's check (C03/C05, -, C13, C07) or out of reach (C12-3)
+expect[C07-7]=0; expect[C12-3]=0   # rejected under another property's check only (C03/C05: undecided there) / out of reach (C12-3)
 bad=0
 for d in seeded/C*-*/; do
   n=$(basename $d); id=${n%-*}
